@@ -89,6 +89,12 @@ Proof.
     + apply IH; [exact Hl | intros H; apply Hx; right; exact H].
 Qed.
 
+Lemma NoDup_app_l {T} (a c : list T) : NoDup (a ++ c) -> NoDup a.
+Proof.
+  induction a as [|x a IH]; intros H; [constructor|]. cbn in H. inversion H as [|? ? Hx Ha]; subst.
+  constructor; [intros Hin; apply Hx; apply in_or_app; left; exact Hin | apply IH; exact Ha].
+Qed.
+
 Lemma NoDup_keys_filter {V} (p : Z * V -> bool) (d : list (Z * V)) : NoDup (keys d) -> NoDup (keys (filter p d)).
 Proof.
   unfold keys. induction d as [|x d IH]; intros H; [constructor|]. cbn in *.
@@ -311,8 +317,8 @@ Section Match.
 
   Lemma NoDup_app_single_inv {T} (l : list T) x : NoDup (l ++ [x]) -> NoDup l /\ ~ In x l.
   Proof.
-    intros H. split; [apply NoDup_remove_1 with (a := x); rewrite app_nil_r; exact H|].
-    apply NoDup_remove_2 in H. rewrite app_nil_r in H. exact H.
+    intros H. pose proof (NoDup_remove_1 l [] x H) as H1. pose proof (NoDup_remove_2 l [] x H) as H2.
+    rewrite app_nil_r in *. split; assumption.
   Qed.
 
   Lemma step_complete pre (mp : mapping) s_n back s_atom s_bond bk n' o_n :
@@ -354,14 +360,14 @@ Section Match.
         destruct (bond_get q_bonds s_n x) as [qb|] eqn:Eq; [|contradiction].
         exists x, qb. split; [|apply In_zget; assumption].
         apply Hclo. split; [rewrite <- Ek; apply (in_map fst) in Hxy; exact Hxy|]. split; [|exact Eq].
-        intros E. injection E as ->. apply Hy3.
+        intros E. rewrite Eback in E. injection E as ->. apply Hy3.
         apply (In_zget _ _ _ Hkeys) in Hxy. apply (In_zget _ _ _ Hkeys) in Hbkn. congruence.
       + intros (m & bdm & Hm' & Hz). apply Hclo in Hm'. destruct Hm' as (Hp & Hb & Hq).
         apply zget_In in Hz. pose proof (Hno m y Hz) as Hpo. unfold pair_ok in Hpo. rewrite Hq in Hpo.
         destruct (bond_get o_bonds o_n y) as [ob'|] eqn:Eob'; [|contradiction].
         split; [apply zget_Some_key in Eob'; exact Eob'|].
         apply andb_true_intro. split; [apply zmem_In; apply (in_map snd) in Hz; exact Hz|].
-        apply negb_true_iff, Z.eqb_neq. intros ->. apply Hb. f_equal. symmetry. apply (image_inj mp m bk n' Einj Hz Hbkn).
+        apply negb_true_iff, Z.eqb_neq. intros ->. apply Hb. rewrite Eback. f_equal. symmetry. apply (image_inj mp m bk n' Einj Hz Hbkn).
     - apply forallb_forall. intros [m bdm] Hm'. cbn [fst snd].
       pose proof Hm' as Hm''. apply Hclo in Hm''. destruct Hm'' as (Hp & Hb & Hq).
       destruct (Hw2 _ _ Hm') as [y Hy]. rewrite Hy. apply zget_In in Hy.
@@ -375,7 +381,7 @@ Section Match.
   Lemma emb_prefix c1 c2 (f1 f2 : mapping) : emb (c1 ++ c2) scope (f1 ++ f2) -> map fst f1 = c1 -> emb c1 scope f1.
   Proof.
     intros (Hk & Hinj & Hat & Hp) H1. unfold induced_embedding. split; [exact H1|]. split.
-    - unfold image in *. rewrite map_app in Hinj. apply NoDup_app_remove_r in Hinj. exact Hinj.
+    - unfold image in *. rewrite map_app in Hinj. apply NoDup_app_l in Hinj. exact Hinj.
     - split; [intros x y H; apply Hat; apply in_or_app; left; exact H|].
       intros x1 y1 x2 y2 Ha Hb. apply Hp; apply in_or_app; left; assumption.
   Qed.
@@ -396,8 +402,8 @@ Section Match.
       apply in_flat_map in Hf. destruct Hf as ([o_n o_bond] & Hc & Hf). apply in_rev in Hc.
       apply filter_In in Hc. destruct Hc as [Hadj Hok]. cbn [fst snd] in Hok, Hf.
       assert (E' : emb (P ++ [s_n]) scope ((mp ++ [(current, n)]) ++ [(s_n, o_n)])).
-      { apply (step_sound P _ s_n back s_atom s_bond bk n' o_n o_bond); try assumption. rewrite Eb. exact Hok. }
-      cbn [map]. replace (P ++ s_n :: map fst4 rest) with ((P ++ [s_n]) ++ map fst4 rest) by (rewrite <- app_assoc; reflexivity).
+      { apply (step_sound P _ s_n back s_atom s_bond bk n' o_n o_bond); try assumption; try (rewrite Eb; exact Hok). }
+      cbn [map fst4]. replace (P ++ s_n :: map fst4 rest) with ((P ++ [s_n]) ++ map fst4 rest) by (rewrite <- app_assoc; reflexivity).
       apply (IH (P ++ [s_n]) s_n (mp ++ [(current, n)]) o_n); try assumption.
       apply NoDup_app_single; [exact Hn | apply He].
   Qed.
@@ -418,18 +424,18 @@ Section Match.
       pose proof He as (Hnew & _ & (bk & bd & Eb & _ & Hbk & _) & _).
       destruct (back_image P mp current n bk Hk Hn Hbk) as (n' & En' & Hin').
       assert (Hfr : exists o_n frest', frest = (s_n, o_n) :: frest').
-      { destruct E as (Ek & _). cbn [map] in Ek. rewrite map_app, Hk in Ek. apply app_inv_head in Ek.
+      { destruct E as (Ek & _). cbn [map fst4] in Ek. rewrite map_app, Hk in Ek. apply app_inv_head in Ek.
         destruct frest as [|[x y] fr]; [discriminate|]. cbn in Ek. injection Ek as -> _. eauto. }
       destruct Hfr as (o_n & frest' & ->).
       replace ((mp ++ [(current, n)]) ++ (s_n, o_n) :: frest') with (((mp ++ [(current, n)]) ++ [(s_n, o_n)]) ++ frest') in *
         by (rewrite <- app_assoc; reflexivity).
-      cbn [map] in E. replace (P ++ s_n :: map fst4 rest) with ((P ++ [s_n]) ++ map fst4 rest) in E by (rewrite <- app_assoc; reflexivity).
+      cbn [map fst4] in E. replace (P ++ s_n :: map fst4 rest) with ((P ++ [s_n]) ++ map fst4 rest) in E by (rewrite <- app_assoc; reflexivity).
       assert (E1 : emb (P ++ [s_n]) scope ((mp ++ [(current, n)]) ++ [(s_n, o_n)])).
       { apply (emb_prefix _ _ _ _ E). rewrite map_app, Hk. reflexivity. }
       destruct (step_complete P _ s_n back s_atom s_bond bk n' o_n Hn Hk He Eb Hin' E1) as (o_bond & Hadj & Hok).
       cbn [gm_from]. rewrite Eb. rewrite En'.
       apply in_flat_map. exists (o_n, o_bond). split.
-      + apply -> in_rev. apply filter_In. split; [exact Hadj|]. cbn [fst snd]. rewrite <- Eb. exact Hok.
+      + apply -> in_rev. apply filter_In. split; [exact Hadj|]. cbn [fst snd]. exact Hok.
       + cbn [fst]. apply (IH (P ++ [s_n])); try assumption.
         * apply NoDup_app_single; assumption.
         * rewrite map_app, Hk. reflexivity.
